@@ -157,7 +157,12 @@ func c05Variants(c *rtr.Case, key []byte, cfg *rtr.Cfg) []c05Variant {
 		p.CurrHF = 1
 		out = append(out, c05Variant{name: "displaced-first-hop", pkt: p, ingressIf: 0})
 	}
-	if c.In.Kind == 2 {
+	// The generator only produces what correct siblings hand over (a sibling-ingress packet always leaves through an own
+	// external interface). A sibling link can carry any hop position, though: every case that enters over an EXTERNAL
+	// interface is also explored with the hop's ingress rewritten to each sibling-owned interface (valid MAC), i.e. as the
+	// packet would look had a sibling been the ingress router - including last hops, cross-over hops and hops whose egress
+	// belongs to a sibling as well.
+	if c.In.Kind == 2 || c.In.Kind == 1 {
 		nids := []uint16{0, 999}
 		for _, f := range cfg.Ifs { // ... and to every other sibling-owned interface of the AS (same sibling, other siblings)
 			if f.Owner != 0 && f.ID != c.In.IfID {
@@ -189,7 +194,13 @@ func c05Variants(c *rtr.Case, key []byte, cfg *rtr.Cfg) []c05Variant {
 				copy(cur.Mac[:], full[:6])
 			}
 			vr := c05Variant{name: fmt.Sprintf("hop-ingress=%d", nid), pkt: p, ingressIf: nid}
-			if nid != 0 && nid != 999 {
+			switch {
+			case c.In.Kind == 1:
+				vr.reduced, vr.cls = true, "external-ingress-case:hop-ingress=sibling-owned-interface"
+				if nid == 0 || nid == 999 {
+					vr.cls = fmt.Sprintf("external-ingress-case:hop-ingress=%d", nid)
+				}
+			case nid != 0 && nid != 999:
 				vr.reduced, vr.cls = true, "hop-ingress=other-sibling-owned-interface"
 			}
 			out = append(out, vr)
